@@ -5,7 +5,11 @@ package main
 import (
 	"fmt"
 	"os"
+	"runtime"
 	"sort"
+	"unsafe"
+
+	"golang.org/x/sys/unix"
 )
 
 // commands is filled by the init functions of the files that implement the sub-commands.
@@ -21,5 +25,50 @@ func main() {
 		fmt.Fprintln(os.Stderr, "usage: harness <command> ...; commands:", names)
 		os.Exit(2)
 	}
+	if os.Getenv("VERIF_OUTER_FILTER") == "1" {
+		installOuterFilter()
+	}
 	commands[os.Args[1]]()
+}
+
+// installOuterFilter (hostile surroundings, VERIF_OUTER_FILTER=1): the whole process is confined, before anything of
+// the library runs, by a hand-written filter - no code of the library under test is involved - that answers seccomp(2)
+// with EPERM and allows everything else: what a process started by a container runtime or by a sandbox sees.
+func installOuterFilter() {
+	type sockFilter struct {
+		code   uint16
+		jt, jf uint8
+		k      uint32
+	}
+	type sockFprog struct {
+		n      uint16
+		filter *sockFilter
+	}
+	const (
+		ldAbsW = 0x20
+		jeqK   = 0x15
+		retK   = 0x06
+	)
+	prog := []sockFilter{
+		{ldAbsW, 0, 0, 4},
+		{jeqK, 2, 0, 0xc000003e}, // AUDIT_ARCH_X86_64 -> 4
+		{jeqK, 3, 0, 0x40000003}, // AUDIT_ARCH_I386 -> 6
+		{retK, 0, 0, 0x7fff0000},
+		{ldAbsW, 0, 0, 0},
+		{jeqK, 3, 2, 317}, // seccomp on x86_64 (and, with the x32 bit clear, only there)
+		{ldAbsW, 0, 0, 0},
+		{jeqK, 1, 0, 354}, // seccomp on i386
+		{retK, 0, 0, 0x7fff0000},
+		{retK, 0, 0, 0x00050000 | 1}, // ERRNO | EPERM
+	}
+	runtime.LockOSThread()
+	defer runtime.UnlockOSThread()
+	if err := unix.Prctl(unix.PR_SET_NO_NEW_PRIVS, 1, 0, 0, 0); err != nil {
+		panic(err)
+	}
+	fp := sockFprog{n: uint16(len(prog)), filter: &prog[0]}
+	// SECCOMP_SET_MODE_FILTER = 1, SECCOMP_FILTER_FLAG_TSYNC = 1: every thread of the process
+	if _, _, e := unix.Syscall(unix.SYS_SECCOMP, 1, 1, uintptr(unsafe.Pointer(&fp))); e != 0 {
+		panic(e)
+	}
 }
